@@ -15,6 +15,7 @@ TInit == A!WInit /\ l = 1
 TNext == \/ Is("Prod") /\ A!Prod(Ev.r, Ev.n)
          \/ Is("Inv") /\ A!Inv(Ev.t, Ev.r, Ev.need)
          \/ Is("Res") /\ A!Res(Ev.t, Ev.r, Ev.c)
+         \/ Is("ResS") /\ A!ResS(Ev.t, Ev.r, Ev.c)
          \/ Is("Enq") /\ A!Enq(Ev.u)
          \/ Is("Begin") /\ A!Begin(Ev.u)
          \/ Is("Stuck") /\ A!Stuck(Ev.blocked)
